@@ -27,7 +27,7 @@ ASSUMPTIONS = ["dispatch discriminators (type, xmlns, class, mediatype, ...) kee
                "the protobuf payload of fixture message stanzas is opaque (C10 covers the converter); the media-stanza cases build payloads with the independent reference mapping ref/e2e_ref.py over a descriptor-generated protobuf stub"]
 EXPLANATION = "symbolic execution of each entity class's parser and serialiser on a stanza template with solver-variable fields; equality discharged by z3"
 
-REPO = os.environ.get("YOWSUP_REPO", "/repo")
+REPO = (os.environ.get("YOWSUP_REPO") or "/repo")
 
 # role of each entity class (by name): "in" = built from an incoming stanza by a receive handler (the stanza must be
 # reproduced); "out" = sent by applications or by the library (the produced stanza must be codec-clean); both where both.
